@@ -306,11 +306,10 @@ def scorer_family(which):
         RG('complex/|z|<4', A(polar(0.3, 4.0))),
         RG(far_asy[0], A(far_asy[1]), weight=2),
         RG(far_ser[0], A(far_ser[1]), weight=2),
-        RG('complex/next-to-ray-pi/3(asymptotic-side)', A(polar(4.0, 40.0, *asy)), weight=2, **X),
-        RG('complex/next-to-ray-pi/3(series-side)', A(polar(4.0, 40.0, *ser)), **X),
-        RG('complex/next-to-ray--pi/3(asymptotic-side)', A(polar(4.0, 40.0, *neg(asy))), **X),
-        RG('complex/next-to-ray--pi/3(series-side)', A(polar(4.0, 40.0, *neg(ser))), **X),
-        RG('complex/next-to-ray-pi/3(asymptotic-side)-large', A(polar(40.0, 400.0, *asy)), ref_extra=scorer_extra, heavy=True),
+        RG('complex/next-to-ray-pi/3(asymptotic-side)', A(polar(4.0, 22.0, *asy)), weight=2, **X),
+        RG('complex/next-to-ray-pi/3(series-side)', A(polar(4.0, 22.0, *ser)), **X),
+        RG('complex/next-to-ray--pi/3(asymptotic-side)', A(polar(4.0, 22.0, *neg(asy))), **X),
+        RG('complex/next-to-ray--pi/3(series-side)', A(polar(4.0, 22.0, *neg(ser))), **X),
     ]
 
 
@@ -621,7 +620,7 @@ def airy_zero_family(fname, which):
 
 TABLE = {
     'besselj': bessel_family('besselj') + [RG('int-order/at-zero-rounded', at_zero('j'), weight=2)],
-    'bessely': bessel_family('bessely') + [RG('int-order/at-zero-rounded', at_zero('y'), weight=2)],
+    'bessely': bessel_family('bessely') + [RG('int-order/at-zero-rounded', at_zero('y'), weight=2, precs=[10, 15, 30, 53, 64, 100], tmax=3)],
     'besseli': bessel_family('besseli') + [
         RG('neg-int-order/tiny', A(integer(-6, -1), tiny), relation=besseli_reflect, precs=[10, 15, 30, 53, 64], tmax=3),
         RG('neg-int-order/real-small', A(integer(-12, -1), small_pos), relation=besseli_reflect, precs=[10, 15, 30, 53, 64, 100], tmax=3),
